@@ -259,7 +259,7 @@ fn run_c10_async(cfg: &RunCfg, out: &mut RunOut) {
     let shape = format!("{}/async", cfg.specs[0].shape());
     let mut tr = C10Track::new(cfg);
     let mut world = World { m: vec![cfg.specs[0].view()], w: Default::default() };
-    let mut ax = AExec { root: ab.root.clone(), slots: Default::default() };
+    let mut ax = AExec { root: ab.root.clone(), slots: Default::default(), others: vec![] };
     let mut universe: BTreeSet<String> = world.m[0].t.keys().cloned().collect();
     for op in &cfg.ops {
         for p in op.paths() {
@@ -493,7 +493,7 @@ fn async_c08_mirror(cfg: &RunCfg, out: &mut RunOut) -> Option<(String, String, u
     let shape = format!("{}/async", cfg.specs[0].shape());
     let (lower_nodes, lower_pfx) = cfg.specs[0].lower_info();
     let touches = |node: u16, p: &str| -> bool { lower_nodes.contains(&node) || lower_pfx.iter().any(|(id, pfx)| *id == node && (p == pfx || crate::model::is_under(p, pfx))) };
-    let mut ax = AExec { root: ab.root.clone(), slots: Default::default() };
+    let mut ax = AExec { root: ab.root.clone(), slots: Default::default(), others: vec![] };
     // one injected failure (k-th underlying call of one operation) in half of the runs
     let mut rng = crate::rng::Rng::new(crate::rng::mix(cfg.seed, 0xFA08));
     let fault_at = if rng.pct(50) && !cfg.ops.is_empty() { Some((rng.below(cfg.ops.len()), 1 + rng.below(8) as u64)) } else { None };
